@@ -771,6 +771,13 @@ def rule_maybeuninit(facts):
             if _is_take(f) or any(_deep(facts, c, _is_take) for c, _ in cls):
                 Dt.add(i)
         rets = set(mirq.return_blocks(b))
+        # a prefix drop written as an explicit loop (`for o in &mut arr[..i] { o.assume_init_drop() }`): passing the loop's header IS the
+        # drop of the prefix `..i` (zero iterations = the empty prefix), exactly like the call `arr[..i].iter_mut().for_each(..)`
+        Dloop = set()
+        for h, blocks in mirq.loops(b):
+            if (blocks & Dd) and not (blocks & W):
+                Dloop.add(h)
+        Dd_pass = Dd | Dloop
         r.ob(bool(W) and bool(Dt))
         if not W or not Dt:
             r.violations.append(V("MAYBEUNINIT", b["uname"], "holder without write/consume",
@@ -780,7 +787,7 @@ def rule_maybeuninit(facts):
         for w in sorted(W):
             leak = set()
             for s in mirq.succs(b, w):
-                leak |= (mirq.reachable(b, s, avoid=Dd | Dt) & rets)
+                leak |= (mirq.reachable(b, s, avoid=Dd_pass | Dt) & rets)
             # blocks in Dd|Dt that are themselves returns do not exist (they are calls)
             ok = not leak
             r.ob(ok)
